@@ -131,6 +131,28 @@ def run(tier, seed, t0):
     rich_items = [it for lst in fam.values() for it in lst]
     engine.check_items(PROP + "B", base_items + rich_items, seed=seed, do_search=False)
     good = [it for it in base_items if it.status == "pass"][:n_prog]
+    # a build whose emitted wiring is not the wiring the compiler planned: the circuit idealised from the
+    # compiler's own logical edges is certified, the emitted blueprint is not, and the partition of connectors
+    # differs from the one those edges imply -- the emitted blueprint does not carry every planned wire
+    for it in base_items + rich_items:
+        d_ = getattr(it, "detail", None) or {}
+        if it.status == "violation" and d_.get("ideal_circuit_passes") is True and d_.get("partition_matches_design") is False:
+            rep.obligations += 1
+            h_ = None
+            try:
+                import history
+                import random as _r
+                if getattr(it, "mems", None):
+                    h_ = history.ring_history(it, _r.Random(1)) or history.gated_cell_history(it, _r.Random(1))
+            except Exception:  # noqa: BLE001
+                h_ = None
+            rep.violation({"program": it.text, "detail": dict(d_, failing_input=h_),
+                           "error": "the emitted blueprint is not the planned circuit: the circuit built from the compiler's own "
+                                    "logical edge list is certified for this program, the emitted blueprint is not, and its "
+                                    "connector partition differs from the one the planned edges imply (a planned wire is missing "
+                                    "or an extra one is present)",
+                           "planned_edges": (it.harvest or {}).get("edges"),
+                           "emitted_wires": (it.bpj or {}).get("blueprint", {}).get("wires")}, bool(h_))
     seen_ring = set()
     for k, lst in fam.items():
         ok_ = [it for it in lst if it.status == "pass"]
